@@ -316,7 +316,7 @@ def sampled_start_insts(flat):
 
 
 def simulate(flat: Flat, emulate_stale=False, emulate_sampled_start=False, preset=None, ref_invalid_notify=True,
-             captured=()) -> ModelRun:
+             captured=(), inv_notifies=True) -> ModelRun:
     """captured: uids whose evaluation errors are captured (exception_time_series): a planned eval fault abandons that one
     evaluation (no output, no state change, no new requests), the run continues and pending wake-ups stay pending."""
     case = flat.case
@@ -451,6 +451,7 @@ def simulate(flat: Flat, emulate_stale=False, emulate_sampled_start=False, prese
             break
         R.cycles.append(t)
         ticked = set()
+        notified = set()      # sources that lost their value this cycle: consumers are woken, nothing reads as modified
         for k in flat.order:
             i, s = insts[k], S[k]
             if i.op == "ite":
@@ -467,9 +468,14 @@ def simulate(flat: Flat, emulate_stale=False, emulate_sampled_start=False, prese
                     if not (cand.op == "ite" and S[cand.id].pos == 0):
                         eff = s.st
                 prev_final = s.base if s.pos else -1
+                # the wanted input is an unset reference: the published reference VALUE stays what it was (it is not re-resolved
+                # through the previously selected input, whose own retargets no longer reach this output)
+                frozen = s.st in (1, 2) and eff != s.st and s.pos != 0
                 s.pos = eff
                 final = -1
-                if eff in (1, 2):
+                if frozen:
+                    final = prev_final
+                elif eff in (1, 2):
                     cur = i.ins[eff].target
                     hops = 0
                     while cur.op == "ite" and S[cur.id].pos in (1, 2) and hops < 50:
@@ -515,7 +521,7 @@ def simulate(flat: Flat, emulate_stale=False, emulate_sampled_start=False, prese
             for q, r in enumerate(i.ins):
                 if r.passive or q in act_exc:
                     continue
-                if r.target.id in ticked:
+                if r.target.id in ticked or r.target.id in notified:
                     active_tick = True
             if not (due or active_tick):
                 if any(r.target.id in ticked for r in i.ins):
@@ -567,6 +573,11 @@ def simulate(flat: Flat, emulate_stale=False, emulate_sampled_start=False, prese
                     sc = case.scripts.get(i.uid, [])
                     if s.pos < len(sc) and script_at(i, s, s.pos)[0] == t:
                         out = script_at(i, s, s.pos)[1]
+                        if out == "INV":
+                            # the source silently loses its value (an element input whose dictionary entry went away)
+                            out, s.val, s.valid = None, None, False
+                            if inv_notifies:
+                                notified.add(k)
                         s.pos += 1
                         if int(i.kw.get("mode", 0)) == 0 and s.pos < len(sc):
                             request(i, s, t, script_at(i, s, s.pos)[0])
